@@ -535,8 +535,47 @@ def run_marking_pairs(case):
     return out
 
 
+def run_cross_version_ext(case):
+    """The same extension name registered for 2.0 and 2.1 (different classes; custom and built-in): an INSTANCE of one
+    version's class handed, as an object, to an object of the other version."""
+    import stix2
+    from stix2 import properties as P
+    from stix2 import registry
+    out = {}
+    n = case["name"]
+    try:
+        stix2.v20.CustomExtension(n, [("alpha_val", P.StringProperty(required=True))])(type("X20", (object,), {}))
+        stix2.v21.CustomExtension(n, [("alpha_val", P.StringProperty(required=True))])(
+            type("X21", (object,), {"extension_type": "property-extension"}))
+    except Exception as e:  # noqa: BLE001
+        return {"register": "exc:" + type(e).__name__}
+    mods = {"2.0": stix2.v20, "2.1": stix2.v21}
+    for ext_name, vals in ((n, {"alpha_val": "v"}), ("ntfs-ext", {"sid": "S-1"})):
+        for src, dst in (("2.0", "2.1"), ("2.1", "2.0"), ("2.0", "2.0"), ("2.1", "2.1")):
+            key = "%s: %s instance in a %s file" % (ext_name, src, dst)
+            try:
+                inst = registry.class_for_type(ext_name, src, "extensions")(**vals)
+                want = registry.class_for_type(ext_name, dst, "extensions")
+                host = mods[dst].File(name="f", extensions={ext_name: inst})
+            except Exception as e:  # noqa: BLE001
+                out[key] = "exc:" + type(e).__name__
+                continue
+            got = host["extensions"][ext_name]
+            st = "ok" if type(got) is want else "ok-wrong-class:" + qual(type(got))
+            try:
+                back = stix2.parse_observable(json.loads(host.serialize()), version=dst)
+                if not (back == host):
+                    st += "+reparsed-differs"
+            except Exception as e:  # noqa: BLE001
+                st += "+unparseable:" + type(e).__name__
+            out[key] = st
+    return out
+
+
 def run_one(case):
     k = case["k"]
+    if k == "cross_version_ext":
+        return run_cross_version_ext(case)
     if k == "marking_pairs":
         return run_marking_pairs(case)
     if k == "history":
@@ -573,7 +612,7 @@ def main():
         if not line:
             continue
         case = json.loads(line)
-        if case["k"] in ("history", "guarantee", "marking_pairs") or case.get("fresh"):
+        if case["k"] in ("history", "guarantee", "marking_pairs", "cross_version_ext") or case.get("fresh"):
             print(json.dumps(fresh(case)))
         else:
             print(json.dumps(run_one(case)))
